@@ -175,7 +175,7 @@ theorem step_order_sublist (s : State) (a : Act) (hl : s.kind = .lru) (hi : Inv 
       | exact List.Sublist.refl _
       | (rw [snapLoop_order']; exact List.Sublist.refl _)
   | expire d hids =>
-    simp only [touchedBy, step, expire]
+    simp only [touchedBy, step, expireAt]
     repeat' split
     all_goals first
       | exact List.Sublist.refl _
@@ -240,7 +240,7 @@ theorem step_kind (s : State) (a : Act) : (step s a).1.kind = s.kind := by
     all_goals first | rfl | (simp [State.touch, State.removeKey, State.setEnt, State.dropHandle]; split <;> rfl)
   | snapshot hids => simp only [step, snapshot]; repeat' split
                      all_goals first | rfl | exact snapLoop_kind _ _ _ _
-  | expire d hids => simp only [step, expire]; repeat' split
+  | expire d hids => simp only [step, expireAt]; repeat' split
                      all_goals first | rfl | exact expireLoop_kind _ _ _ _ _
   | count => simp only [step, count]; split <;> rfl
   | keys => simp only [step, keys]; split <;> rfl
